@@ -13,15 +13,18 @@ import (
 )
 
 var (
-	P  = new(big.Int).Sub(new(big.Int).Lsh(big.NewInt(1), 255), big.NewInt(19))
-	L  = func() *big.Int { v, _ := new(big.Int).SetString("27742317777372353535851937790883648493", 10); return v.Add(v, new(big.Int).Lsh(big.NewInt(1), 252)) }()
+	P = new(big.Int).Sub(new(big.Int).Lsh(big.NewInt(1), 255), big.NewInt(19))
+	L = func() *big.Int {
+		v, _ := new(big.Int).SetString("27742317777372353535851937790883648493", 10)
+		return v.Add(v, new(big.Int).Lsh(big.NewInt(1), 252))
+	}()
 	D  *big.Int // -121665/121666
 	D2 *big.Int
 	I  *big.Int // sqrt(-1) = 2^((p-1)/4)
 	B  Point
 )
 
-func mod(v *big.Int) *big.Int { return v.Mod(v, P) }
+func mod(v *big.Int) *big.Int    { return v.Mod(v, P) }
 func mul(a, b *big.Int) *big.Int { return mod(new(big.Int).Mul(a, b)) }
 func add(a, b *big.Int) *big.Int { return mod(new(big.Int).Add(a, b)) }
 func sub(a, b *big.Int) *big.Int { return mod(new(big.Int).Sub(a, b)) }
